@@ -53,6 +53,36 @@ class Lock:
         self.f.close()
 
 
+def truc_features():
+    """Non-default cargo features of the `truc` crate in /repo's working tree (read with
+    `cargo metadata`, so that nothing here names them)."""
+    rc, out, err = sh(["cargo", "metadata", "--offline", "--no-deps", "--format-version", "1"], cwd=REPO, timeout=300)
+    if rc != 0:
+        return []
+    try:
+        pk = [p for p in json.loads(out)["packages"] if p["name"] == "truc"][0]
+    except Exception:
+        return []
+    return sorted(f for f in pk.get("features", {}) if f != "default")
+
+
+def cargo_build_all_features(package, profile, timeout=1800):
+    """The harness package with every cargo feature of truc switched on, in a target directory
+    of its own. Returns (binary, features) or (None, []) when truc has no optional feature."""
+    feats = truc_features()
+    if not feats:
+        return None, []
+    env = dict(ENV)
+    env["CARGO_TARGET_DIR"] = os.path.join(WORK, "target-allfeatures")
+    cmd = ["cargo", "build", "--offline", "-p", package, "--profile", profile, "--features", ",".join("truc/" + f for f in feats)]
+    with Lock("cargo-harness-allfeatures"):
+        rc, out, err = sh(cmd, cwd=HARNESS, env=env, timeout=timeout)
+    if rc != 0:
+        tail = "\n".join((err or "").splitlines()[-25:])
+        raise Inconclusive("build of %s with the features %s of truc failed or timed out:\n%s" % (package, feats, tail))
+    return os.path.join(env["CARGO_TARGET_DIR"], profile, package), feats
+
+
 def cargo_build(package, profile, features=None, cwd=HARNESS, toolchain=None, extra=None, timeout=1800):
     """Builds a harness package against /repo's working tree. Returns the binary path.
     A build failure is inconclusive for the property under check (the tree does not compile or
